@@ -92,7 +92,7 @@ func xorStart() GenomeSpec {
 }
 
 // evolve runs the scenario and returns the dump of the final population together with growth indicators.
-func evolve(sc Scenario) (dump string, written string, grew bool, err error) {
+func evolve(sc Scenario, rec *Rec) (dump string, written string, grew bool, err error) {
 	defer func() {
 		if r := recover(); r != nil { // a scenario that dies is an outcome like any other: it has to die the same way twice
 			dump, written, grew, err = "", "", false, fmt.Errorf("panic: %v", r)
@@ -111,7 +111,7 @@ func evolve(sc Scenario) (dump string, written string, grew bool, err error) {
 			return nil
 		},
 		after: func(e int, pop *genetics.Population) error { final = pop; return nil },
-	}, newRec())
+	}, rec)
 	if err != nil || final == nil {
 		return "", "", false, err
 	}
@@ -153,6 +153,12 @@ type C17Case struct {
 	// SameStart: both runs (and the unrelated work of the same constructor kind) spawn from one and the same start genome
 	// object: spawning reads the start genome, it does not own it
 	SameStart bool `json:"both_runs_from_one_start_genome_object,omitempty"`
+	// FreshExecutors: the second run takes a new executor object for every turnover (the first run keeps one for the whole
+	// history): an executor is a stateless tool between turnovers
+	FreshExecutors bool `json:"second_run_new_executor_per_turnover,omitempty"`
+	// Loaded (with Derived): the used options object of the second run was loaded from an options file of the repository
+	// (1: YAML, 2: plain format) before every exported setting was overwritten - how the shipped experiments configure a run
+	Loaded int `json:"second_run_options_loaded_from_file,omitempty"`
 }
 
 // deriveOptions: a by-value copy of a used options object with every exported field set from want.
@@ -216,7 +222,11 @@ func genC17() *rapid.Generator[C17Case] {
 		for i := 0; i < n; i++ {
 			c.Others = append(c.Others, other.Draw(t, "unrelated"))
 		}
-		c.UsedExecutor = rapid.IntRange(0, 3).Draw(t, "used executor") == 0
+		if c.Derived {
+			c.Loaded = rapid.IntRange(0, 2).Draw(t, "options loaded from a file")
+		}
+		c.FreshExecutors = rapid.IntRange(0, 3).Draw(t, "fresh executors") == 0
+		c.UsedExecutor = !c.FreshExecutors && rapid.IntRange(0, 3).Draw(t, "used executor") == 0
 		c.SameStart = rapid.IntRange(0, 3).Draw(t, "same start object") == 0
 		return c
 	})
@@ -229,7 +239,7 @@ func CheckC17(c C17Case, rec *Rec) error {
 		defer func() { sharedStartGenome = nil }()
 		rec.Class("both runs spawn from one start genome object")
 	}
-	d1, w1, grew, err1 := evolve(sc)
+	d1, w1, grew, err1 := evolve(sc, rec)
 	if err1 == nil && d1 == "" {
 		rec.Class("skipped: constructor outside the domain (gene-less random genome / failing turnover before the checkpoint)")
 		return nil
@@ -238,7 +248,7 @@ func CheckC17(c C17Case, rec *Rec) error {
 	for _, o := range c.Others {
 		keep := sharedStartGenome
 		sharedStartGenome = nil
-		_, _, _, _ = evolve(o)
+		_, _, _, _ = evolve(o, newRec())
 		sharedStartGenome = keep
 		rec.Class("generated unrelated scenario between the runs")
 	}
@@ -250,6 +260,15 @@ func CheckC17(c C17Case, rec *Rec) error {
 		// the used object is exercised once, before the second run starts (nothing may draw from the random source
 		// while the scenario is running)
 		u := used.Build()
+		if c.Loaded > 0 {
+			level := neat.LogLevel // loading options sets the package's log level: the case's level is put back
+			file := map[int]string{1: "/repo/data/xor_test.neat.yml", 2: "/repo/data/xor_test.neat"}[c.Loaded]
+			if lo, lerr := neat.ReadNeatOptionsFromFile(file); lerr == nil {
+				u = lo
+				rec.Class("second run with an options object that was loaded from a file")
+			}
+			neat.LogLevel = level
+		}
 		if pop, err := genetics.NewPopulation(xorStart().Build(), u); err == nil {
 			_ = newExecutor(u).NextEpoch(u.NeatContext(), 0, pop)
 		}
@@ -303,7 +322,12 @@ func CheckC17(c C17Case, rec *Rec) error {
 		preparedExecutor = ex
 		rec.Class("second run turned over by an executor object that served another population")
 	}
-	d2, w2, _, err2 := evolve(sc)
+	if c.FreshExecutors && !sc.Opts.Parallel {
+		executorPerTurnover = true
+		rec.Class("second run with a new executor object for every turnover")
+	}
+	d2, w2, _, err2 := evolve(sc, newRec())
+	executorPerTurnover = false
 	preparedExecutor = nil
 	buildOptions = func(o OptSpec) *neat.Options { return o.Build() }
 	if len(sc.Start.Modules) > 0 {
